@@ -63,7 +63,7 @@ P = {
  "C12": dict(
   technique="grid + random AST unwrap documents over three indentation units and nesting depth <= 3; by-construction expected indentation of every surviving inner line; second sub-check with inline elements inside bodies and children reaching into wrapper / tag lines (oracle over the text after removal, line by line)",
   text="Exploration with an exact by-construction oracle for the indentation of every surviving inner line.",
-  note="Layouts with overlapping dedent ranges (inner tag left of outer column + outer dedent) or whose first inner line begins with a removed region are excluded as ambiguous and counted; whitespace-only inner lines are not asserted; known findings KF1 and KF7 exempt the indentation of one line each.",
+  note="Layouts with overlapping dedent ranges (inner tag left of outer column + outer dedent) or whose first inner line begins with a removed region are excluded as ambiguous and counted; whitespace-only inner lines are not asserted; known finding KF1 exempts the indentation of one line.",
   ref="6/C12"),
  "C13": dict(
   technique="exhaustive (b,a) in 0..4 x layout grid + random block documents; by-construction surviving lines and blank-line formula",
